@@ -83,8 +83,11 @@ def r_timer_reset(ctx):
         # guarded by deadline < now
         guard_ok = False
         for n in tcfg.nodes:
-            if n.kind == 'cond' and isinstance(n.ast, ast.Compare) and len(n.ast.ops) == 1:
-                l, r, op = n.ast.left, n.ast.comparators[0], n.ast.ops[0]
+            ce = n.ast if n.kind == 'cond' else None
+            if isinstance(ce, ast.Name):
+                ce = U.single_assign_value(t, ce.id)        # `timedOut = now() > deadline` ... `if timedOut and ..:`
+            if n.kind == 'cond' and isinstance(ce, ast.Compare) and len(ce.ops) == 1:
+                l, r, op = ce.left, ce.comparators[0], ce.ops[0]
                 la, ra = P.self_attr(l, t.self_name), P.self_attr(r, t.self_name)
                 if (la == R.electionDeadline and _is_clock_call(r) and isinstance(op, (ast.Lt, ast.LtE))) or \
                         (ra == R.electionDeadline and _is_clock_call(l) and isinstance(op, (ast.Gt, ast.GtE))):
